@@ -534,6 +534,18 @@ func GoRem(a, b *Term) *Term {
 }
 
 func App(fn string, s *Sort, args ...*Term) *Term {
+	allGround := true
+	for _, a := range args {
+		if !a.ground {
+			allGround = false
+			break
+		}
+	}
+	if allGround {
+		if r, ok := evalSpecApp(fn, args, 0); ok && r.Sort == s {
+			return r
+		}
+	}
 	return intern(&Term{Op: "app", Sort: s, Str: fn, Args: args})
 }
 
